@@ -363,6 +363,7 @@ func runC05(c *explore.Ctx) {
 	// sizes outermost: if the internal deadline ends the run, every size below the one in progress
 	// has been explored completely under every mode (reported in coverage.notes)
 	largeIterWalks(c)
+	zooEach(c, false, func(idx int64, z *zooSeg) { zooPostings(c, idx, z, 12) })
 	for n := 0; n <= N; n++ {
 		for _, mode := range modes {
 			mode := mode
